@@ -130,6 +130,70 @@ macro_rules! side {
                 }
             }
 
+            fn read_enum(fl: Fl, r: &mut &[u8], dec: Option<&mut $D>) -> Result<Opc, ExpectedOpcodeError> {
+                match (fl, dec) {
+                    (Fl::Sync, None) => Opc::read_unencrypted(&mut *r),
+                    (Fl::Sync, Some(d)) => Opc::read_encrypted(&mut *r, d),
+                    (Fl::Tokio, None) => block_on(Opc::tokio_read_unencrypted(&mut *r)),
+                    (Fl::Tokio, Some(d)) => block_on(Opc::tokio_read_encrypted(&mut *r, d)),
+                    (Fl::Astd, None) => block_on(Opc::astd_read_unencrypted(&mut *r)),
+                    (Fl::Astd, Some(d)) => block_on(Opc::astd_read_encrypted(&mut *r, d)),
+                }
+            }
+
+            fn read_other(fl: Fl, r: &mut &[u8], dec: Option<&mut $D>) -> Result<Other, ExpectedOpcodeError> {
+                match (fl, dec) {
+                    (Fl::Sync, None) => $x_u::<Other, _>(r),
+                    (Fl::Sync, Some(d)) => $x_e::<Other, _>(r, d),
+                    (Fl::Tokio, None) => block_on($tx_u::<Other, _>(r)),
+                    (Fl::Tokio, Some(d)) => block_on($tx_e::<Other, _>(r, d)),
+                    (Fl::Astd, None) => block_on($ax_u::<Other, _>(r)),
+                    (Fl::Astd, Some(d)) => block_on($ax_e::<Other, _>(r, d)),
+                }
+            }
+
+            /// A FOREIGN frame of spec/Framing.tla: the model's header bytes (an opcode that is not
+            /// defined for this expansion and direction) and a pattern body, put on the wire without
+            /// the library's writers; every reader must report the opcode and consume the frame.
+            pub struct Raw {
+                pub hdr: Vec<u8>,
+                pub body: Vec<u8>,
+                pub raw_enc: fn(&mut $E, &mut [u8]),
+            }
+
+            impl Ops<$E, $D> for Raw {
+                fn name(&self) -> &'static str {
+                    "?"
+                }
+                fn body(&self) -> &[u8] {
+                    &self.body
+                }
+                fn declared(&self) -> u64 {
+                    (self.hdr.len() + self.body.len()) as u64
+                }
+                fn write(&self, _fl: Fl, _via_enum: bool, out: &mut Vec<u8>, enc: Option<&mut $E>) -> Result<(), String> {
+                    let mut h = self.hdr.clone();
+                    if let Some(e) = enc {
+                        (self.raw_enc)(e, &mut h);
+                    }
+                    out.extend_from_slice(&h);
+                    out.extend_from_slice(&self.body);
+                    Ok(())
+                }
+                fn read(&self, fl: Fl, entry: Entry, r: &mut &[u8], dec: Option<&mut $D>) -> Got {
+                    match entry {
+                        Entry::Opcode => match read_enum(fl, r, dec) {
+                            Ok(v) => Got::Differs(v.to_string()),
+                            Err(e) => classify(e),
+                        },
+                        Entry::Expect | Entry::ExpectOther => match read_other(fl, r, dec) {
+                            Ok(_) => Got::Differs("a foreign frame decoded as a message".to_string()),
+                            Err(e) => classify(e),
+                        },
+                    }
+                }
+            }
+
             impl<M> Ops<$E, $D> for T<M>
             where
                 M: MsgTrait + Clone + PartialEq + Send + Sync,
@@ -320,6 +384,8 @@ pub trait Exp {
     fn halves(key: [u8; 40]) -> Result<(Self::CE, Self::CD, Self::SE, Self::SD), String>;
     fn client_msg(name: &str, body: usize) -> Option<Box<dyn Ops<Self::CE, Self::SD>>>;
     fn server_msg(name: &str, body: usize) -> Option<Box<dyn Ops<Self::SE, Self::CD>>>;
+    fn client_raw(hdr: Vec<u8>, body: usize) -> Box<dyn Ops<Self::CE, Self::SD>>;
+    fn server_raw(hdr: Vec<u8>, body: usize) -> Box<dyn Ops<Self::SE, Self::CD>>;
     fn raw_ce(h: &mut Self::CE, d: &mut [u8]);
     fn raw_cd(h: &mut Self::CD, d: &mut [u8]);
     fn raw_se(h: &mut Self::SE, d: &mut [u8]);
@@ -385,6 +451,13 @@ macro_rules! exp_impl {
                         return extra(name, body);
                     }
                 })
+            }
+
+            fn client_raw(hdr: Vec<u8>, body: usize) -> Box<dyn Ops<Self::CE, Self::SD>> {
+                Box::new($cmod::Raw { hdr, body: pattern(body), raw_enc: Self::raw_ce })
+            }
+            fn server_raw(hdr: Vec<u8>, body: usize) -> Box<dyn Ops<Self::SE, Self::CD>> {
+                Box::new($smod::Raw { hdr, body: pattern(body), raw_enc: Self::raw_se })
             }
 
             fn raw_ce(h: &mut Self::CE, d: &mut [u8]) {
@@ -765,7 +838,10 @@ fn check_read(run: &Run, i: usize, dir: &str, rd: &Value, soft: bool, o: &RObs, 
     if o.end != end {
         return v("consumed", json!(end), json!(o.end), &format!("{:?}", o.got));
     }
+    let foreign = name == "?";
     match (entry, o.got.as_ref().unwrap()) {
+        (_, Got::OpcodeErr(op)) if foreign && u64::from(*op) == rd["opcode"].as_u64().unwrap_or(u64::MAX) => {}
+        (_, g) if foreign => return v("message", json!("error reporting the foreign opcode"), json!(format!("{g:?}").chars().take(200).collect::<String>()), &format!("{g:?}")),
         (Entry::Opcode | Entry::Expect, Got::Same) => {}
         (Entry::Opcode | Entry::Expect, Got::Err(e)) if soft && e.contains("InvalidSize") => {}
         (Entry::ExpectOther, Got::OpcodeErr(op)) if u64::from(*op) == rd["opcode"].as_u64().unwrap_or(u64::MAX) => {}
@@ -799,10 +875,12 @@ fn run_once<X: Exp>(run: &Run, key: Option<[u8; 40]>, entry: Entry, out: &mut Ve
         let hint = crate::util::bytes_of(&f["hdr"]);
         let o = if f["dir"] == "client" {
             soft_c.push(f["soft"] == true);
-            c.write(X::client_msg(name, body).ok_or(format!("harness has no message {name} with body {body}"))?, run.fl, via_enum, Some(&hint))
+            let m = if name == "?" { X::client_raw(hint.clone(), body) } else { X::client_msg(name, body).ok_or(format!("harness has no message {name} with body {body}"))? };
+            c.write(m, run.fl, via_enum, Some(&hint))
         } else {
             soft_s.push(f["soft"] == true);
-            s.write(X::server_msg(name, body).ok_or(format!("harness has no message {name} with body {body}"))?, run.fl, via_enum, Some(&hint))
+            let m = if name == "?" { X::server_raw(hint.clone(), body) } else { X::server_msg(name, body).ok_or(format!("harness has no message {name} with body {body}"))? };
+            s.write(m, run.fl, via_enum, Some(&hint))
         };
         let vs = check_write(run, j + 1, f, &o, crypt);
         if !vs.is_empty() {
